@@ -28,6 +28,7 @@ type c09KillCase struct {
 	AfterResp int  `json:"kill_after_responses"`
 	HoldMs    int  `json:"then_wait_ms"`
 	Fifo      bool `json:"output_is_a_stalled_fifo,omitempty"` // the reader of the output does not read until the kill
+	StuckAt   int  `json:"request_that_never_gets_its_response,omitempty"` // the n-th request (1-based) is held by the server until after the kill
 }
 
 // c09KillWorkers is the -max-workers of the killed attacks. At any instant at
@@ -43,18 +44,27 @@ type c09KillObs struct {
 	ServedAtMark int64  `json:"responses_completed_before_the_wait"`
 	ServedAtKill int64  `json:"responses_completed_at_kill"`
 	DupSeq       bool   `json:"duplicate_seq"`
+	NoFile       bool   `json:"output_file_does_not_exist,omitempty"`
 }
 
 func c09KillOnce(c *Ctx, dir string, cs c09KillCase) (obs c09KillObs, err error) {
 	var served atomic.Int64
 	var mu sync.Mutex
+	var arrived atomic.Int64
+	release := make(chan struct{})
+	var releaseOnce sync.Once
+	unstick := func() { releaseOnce.Do(func() { close(release) }) }
 	srv := httptest.NewServer(http.HandlerFunc(func(w http.ResponseWriter, r *http.Request) {
+		if n := arrived.Add(1); cs.StuckAt > 0 && n == int64(cs.StuckAt) {
+			<-release // a slow hit: still in flight when the attack is killed
+		}
 		fmt.Fprint(w, "ok")
 		mu.Lock()
 		served.Add(1)
 		mu.Unlock()
 	}))
 	defer srv.Close()
+	defer unstick()
 	targets := filepath.Join(dir, "targets.txt")
 	if err = os.WriteFile(targets, []byte("GET "+srv.URL+"/\n"), 0o644); err != nil {
 		return
@@ -120,6 +130,7 @@ func c09KillOnce(c *Ctx, dir string, cs c09KillCase) (obs c09KillObs, err error)
 	obs.ServedAtKill = served.Load()
 	_ = cmd.Process.Signal(syscall.SIGKILL)
 	_ = cmd.Wait()
+	unstick()
 	if !cs.Fifo && obs.ServedAtMark < int64(cs.AfterResp) {
 		return obs, fmt.Errorf("only %d responses within the watchdog: %s", obs.ServedAtMark, tail(stderr.String(), 300))
 	}
@@ -129,6 +140,11 @@ func c09KillOnce(c *Ctx, dir string, cs c09KillCase) (obs c09KillObs, err error)
 		b, rerr = io.ReadAll(fifo) // what the attack had written before it was killed is still in the pipe
 	} else {
 		b, rerr = os.ReadFile(out)
+	}
+	if rerr != nil && !cs.Fifo && os.IsNotExist(rerr) {
+		// the attack creates its output before the first hit; responses were served, so a file that
+		// is not there holds none of their results
+		obs.NoFile, b, rerr = true, nil, nil
 	}
 	if rerr != nil {
 		return obs, rerr
@@ -160,8 +176,8 @@ func c09AttackKill(c *Ctx, run *ev.Run) {
 		return
 	}
 	defer os.RemoveAll(dir)
-	cases := []c09KillCase{{10, 8, 1200, false}, {1000, 1500, 300, false}, {2000, 0, 0, true}, {25, 10, 1000, false}, {400, 600, 400, false}, {500, 0, 50, true}, {2000, 4000, 200, false}, {50, 20, 1000, false}}
-	n := c.Pick(3, len(cases))
+	cases := []c09KillCase{{10, 8, 1200, false, 0}, {300, 200, 300, false, 4}, {1000, 1500, 300, false, 0}, {2000, 0, 0, true, 0}, {25, 10, 1000, false, 0}, {400, 600, 400, false, 0}, {500, 0, 50, true, 0}, {2000, 4000, 200, false, 7}, {50, 20, 1000, false, 2}}
+	n := c.Pick(4, len(cases))
 	for i := 0; i < n; i++ {
 		cs := cases[i]
 		// a verdict needs the same failure in 2 of up to 3 runs: the instant of a
@@ -209,7 +225,10 @@ func c09AttackKill(c *Ctx, run *ev.Run) {
 		if missing >= 2 {
 			run.Violate("C09/attack-killed/results-not-written-as-they-arrive", fmt.Sprintf("vegeta attack -rate %d: %d responses had completed %d ms before the kill, the results file (%d bytes) holds %d whole records", cs.Rate, last.ServedAtMark, cs.HoldMs, last.FileBytes, last.Whole), det)
 		}
-		run.Distinct(fmt.Sprintf("attack-kill:%d:%d:%v", cs.Rate, cs.AfterResp, cs.Fifo))
+		run.Distinct(fmt.Sprintf("attack-kill:%d:%d:%v:%d", cs.Rate, cs.AfterResp, cs.Fifo, cs.StuckAt))
+		if cs.StuckAt > 0 {
+			run.Count("attack_kill_runs_with_a_hit_still_in_flight", 1)
+		}
 		if cs.Fifo {
 			run.Count("attack_kill_runs_with_stalled_output", 1)
 		}
